@@ -115,7 +115,8 @@ class Ex:
         r = rv["r"]
         if r == "use":
             return self._operand(rv["o"], depth)
-        if r == "ref":
+        if r in ("ref", "rawptr"):
+            # (`&raw const *slice` is how slice patterns take the length: PtrMetadata of it)
             return ("ref", self.place(self.tr.nplace(rv["p"]), depth))
         if r == "cfd":
             return self.place(self.tr.nplace(rv["p"]), depth)
